@@ -457,9 +457,12 @@ class MADDPG(MultiAgentRLAlgorithm):
                 if self.discrete_actions:
                     min_action, max_action = 0, 1
                 else:
-                    min_action, max_action = (
-                        self.min_action[idx][0],
-                        self.max_action[idx][0],
+                    # Clamp with the full bound vectors (bounds may differ per dimension)
+                    min_action = torch.as_tensor(
+                        self.min_action[idx], device=actions.device
+                    )
+                    max_action = torch.as_tensor(
+                        self.max_action[idx], device=actions.device
                     )
 
                 # Add noise to actions for exploration
